@@ -8,6 +8,8 @@ CHECKS["C15"] = dict(
         "the reference assumes the documented order of draws per chain (j, k, update draws) followed by one acceptance draw per in-domain proposal whose probability does not exceed the current one",
         "an answer that is established as crashing for one configuration (role of the draw + symbol, e.g. k-draw = 1.0) is not re-executed for that configuration; such cases are counted in 'skipped'",
         "answer strings longer than the enumerated length continue with the default answer 0.5",
+        "pdf 'posterior' is the library's own posterior(model, LikelihoodGaussIsotropic, uniform_prior) composition used as the environment's probability function (its numerics are not judged, only that recorded values equal it)",
+        "a violation stops the checking of its case (later symptoms of the same execution would be consequences)",
     ],
     jobs=[dict(harness="env_dream", variant="asan", args=[], quick=["--tier", "quick"], thorough=["--tier", "thorough"], deadline_quick=240, deadline_thorough=1140)],
 )
